@@ -370,20 +370,17 @@ func runModel(c MCase) mresult {
 		// ---- root-cause shape from the history so far
 		shape := "model"
 		faultStep := ""
+		// late write-back: the last cache-tier write of THIS key was made by a detached write-back goroutine
+		// (it was adopted late and landed after the caller's own write): the listed async-writeback finding
 		lateWB := false
-		lastWrite := map[string]int{}
-		for i, s := range full {
+		for _, s := range full {
 			isWrite := strings.HasSuffix(s.Op, ".Set") || strings.HasSuffix(s.Op, ".Delete")
 			if s.Failed {
 				r.faulted = true
 				faultStep = s.Op
 			}
-			if strings.HasPrefix(s.Task, "bg") {
-				if j, ok := lastWrite[s.Key]; ok && j < i && isWrite {
-					lateWB = true
-				}
-			} else if isWrite {
-				lastWrite[s.Key] = i
+			if s.Key == key && isWrite && !strings.HasPrefix(s.Op, "pers.") {
+				lateWB = strings.HasPrefix(s.Task, "bg")
 			}
 		}
 		_ = before
